@@ -63,12 +63,11 @@ def safe_urlsplit(url, scheme="http"):
 
 
 def pathsplit(urlpath):
-    urlpath = urlpath.strip()
+    urlpath = urlpath.strip().strip("/")
 
-    if not urlpath or urlpath == "/":
+    # NOTE: "", "/" but also "//" have no segment at all
+    if not urlpath:
         return []
-
-    urlpath = urlpath.strip("/")
 
     return urlpath.split("/")
 
